@@ -120,11 +120,25 @@ def run(prop, tier, seed, replay=None):
         "exhaustive": False,
         "explanation": "TLC explored the design spec(s) exhaustively within the config bounds checking the abstract monitor's verdict as an invariant; every exported behaviour and every random program was executed on the real code and the recorded trace validated line by line against SeqAbs by TLC (SeqTrace)",
     }
+    extra_summary = ""
+    if prop == "C16" and not replay:
+        # the flat queue's memory discipline (FlatQueue.tla + observed-layout bounds check)
+        from . import queuecheck
+        q = queuecheck.run("C16", tier, seed)
+        viols += q["violations"]
+        coverage["states"] += q["coverage"]["states"]
+        coverage["transitions"] += q["coverage"]["transitions"]
+        coverage["traces_validated_against_impl"] += q["coverage"]["traces_validated_against_impl"]
+        coverage["evaluations"] += q["coverage"]["evaluations"]
+        coverage["distinct_nontrivial"] += q["coverage"]["distinct_nontrivial"]
+        coverage["tlc_specs"] = coverage["tlc_specs"] + q["coverage"]["tlc_specs"]
+        coverage["queue_part"] = {k: q["coverage"][k] for k in ("trace_records", "drift_count", "rule")}
+        extra_summary = "; queue: " + q["summary"]
     return {
         "level": "model_checking",
         "coverage": coverage,
         "violations": viols,
         "assumptions": ASSUME,
-        "summary": "%d TLC states, %d cases (%d from TLC), %d trace events, %d drift, validate %.1fs" % (
-            mc["states"], len(cases), len(mc["cases"]), nev, len(drift), tval),
+        "summary": "%d TLC states, %d cases (%d from TLC), %d trace events, %d drift, validate %.1fs%s" % (
+            mc["states"], len(cases), len(mc["cases"]), nev, len(drift), tval, extra_summary),
     }
